@@ -340,9 +340,14 @@ class ProbeSrc(object):
         self.calls = 0
 
     def __call__(self):
+        # a plain function, not a generator function: the call itself is an event (a generator
+        # function would hide a call that is made too early)
         c = self.calls
         self.calls += 1
         self.log.ev("srccall", self.name, c)
+        return self._values(c)
+
+    def _values(self, c):
         for j in range(self.m):
             self.log.ev("srcval", self.name, c, j)
             yield (self.name, "src", c, j)
